@@ -5,6 +5,7 @@ package prog
 // host can observe.
 
 import (
+	"bytes"
 	"errors"
 	"fmt"
 	"strings"
@@ -202,6 +203,39 @@ func runProd(src string, opts Options, twice bool) (out Outcome, second *Outcome
 		}()
 	}
 	fillOutcome(&out, env, g, err)
+	return
+}
+
+// RunProdReloaded compiles src, writes the program, reads it back with
+// CompiledProgram and executes that program in a fresh environment; nil if
+// src is statically invalid.
+func RunProdReloaded(src string, opts Options) (out *Outcome) {
+	env := NewEnv()
+	out = &Outcome{}
+	defer func() {
+		if r := recover(); r != nil {
+			out.Panic = fmt.Sprint(r)
+			out.Trace = env.Trace
+		}
+	}()
+	_, p, err := starlark.SourceProgramOptions(opts.FileOptions(), "p.star", src, env.Predeclared.Has)
+	if err != nil {
+		return nil
+	}
+	var buf bytes.Buffer
+	if err := p.Write(&buf); err != nil {
+		out.Panic = "Program.Write failed: " + err.Error()
+		return
+	}
+	p2, err := starlark.CompiledProgram(&buf)
+	if err != nil {
+		out.Panic = "CompiledProgram failed on the bytes just written: " + err.Error()
+		return
+	}
+	env.Thread.SetMaxExecutionSteps(stepBudget)
+	g, err := p2.Init(env.Thread, env.Predeclared)
+	fillOutcome(out, env, g, err)
+	out.Steps = env.Thread.ExecutionSteps()
 	return
 }
 
